@@ -296,25 +296,73 @@ class Ctx:
         p = self.write_replay("nofail" if nofail else "viol", obj)
         self.violations.append((what, p, nofail))
 
-    def known_key_of(self, suite, case):
-        """KnownClass of a case, computed by the extracted Coq predicate <suite>.known (0 = none)."""
+    def known_key_of(self, suite, case, observed):
+        """KnownClass of a (case, observed result), computed by the extracted Coq predicate (0 = none)."""
         ks = getattr(self.mod, "KNOWN_SUITE", {}).get(suite)
         if not ks:
             return 0
-        r = run_model(["%s %s" % (ks, case)])[0]
+        r = run_checker(ks, [case], [observed])[0]
         try:
             return int(r)
         except ValueError:
             return 0
 
 
+def resolve_needs(lines, max_rounds=60):
+    """libm oracle protocol: a model result (2 fn arg) asks for a libm value; the harness computes it with the
+    implementation's own libm (suite "libm") and the case is re-run with its table (2nd element) extended.
+    Returns (model results, final lines)."""
+    lines = list(lines)
+    res = run_model(lines)
+    for _ in range(max_rounds):
+        need = [(i, r) for i, r in enumerate(res) if r.startswith("(2 ")]
+        if not need:
+            break
+        qs = sorted(set(tuple(sx_parse(r)[1:]) for _, r in need))
+        ans = run_impl(["libm (0 (%s))" % " ".join("(%d %d)" % q for q in qs)])[0]
+        table = {(a[0], a[1]): a[2] for a in sx_parse(ans)[1]}
+        for i, r in need:
+            q = tuple(sx_parse(r)[1:])
+            suite, sx = lines[i].split(" ", 1)
+            v = sx_parse(sx)
+            v[1] = v[1] + [[q[0], q[1], table[q]]]
+            lines[i] = suite + " " + sx_str(v)
+        sub = run_model([lines[i] for i, _ in need])
+        for (i, _), r in zip(need, sub):
+            res[i] = r
+    return res, lines
+
+
+def run_checker(checker, cases, outs):
+    """evaluates the property predicate suite on (case, observed) pairs; resolves libm requests of the checker too"""
+    fix = lambda o: o if not (o.startswith("(9") or o == "(8)") else "(1)"
+    lines = ["%s (%s %s)" % (checker, c, fix(o)) for c, o in zip(cases, outs)]
+    res = run_model(lines)
+    for _ in range(60):
+        need = [i for i, r in enumerate(res) if r.startswith("(2 ")]
+        if not need:
+            break
+        qs = sorted(set(tuple(sx_parse(res[i])[1:]) for i in need))
+        ans = run_impl(["libm (0 (%s))" % " ".join("(%d %d)" % q for q in qs)])[0]
+        table = {(a[0], a[1]): a[2] for a in sx_parse(ans)[1]}
+        cases = list(cases)
+        for i in need:
+            q = tuple(sx_parse(res[i])[1:])
+            v = sx_parse(cases[i]); v[1] = v[1] + [[q[0], q[1], table[q]]]; cases[i] = sx_str(v)
+            lines[i] = "%s (%s %s)" % (checker, cases[i], fix(outs[i]))
+        sub = run_model([lines[i] for i in need])
+        for i, r in zip(need, sub):
+            res[i] = r
+    return res
+
+
 def evaluate_stream(ctx, st):
     """Differential run of one stream + property predicate on the implementation's own outputs."""
     lines = ["%s %s" % (st.suite, c) for c in st.cases]
     impl = run_impl(lines)
-    model = run_model(lines)
-    chk_lines = ["%s (%s %s)" % (st.checker, c, o if not (o.startswith("(9") or o == "(8)") else "(1)") for c, o in zip(st.cases, impl)]
-    verdicts = run_model(chk_lines) if st.checker else ["1"] * len(lines)
+    model, lines = resolve_needs(lines)
+    st.cases = [l.split(" ", 1)[1] for l in lines]
+    verdicts = run_checker(st.checker, st.cases, impl) if st.checker else ["1"] * len(lines)
     n = len(lines)
     ctx.evaluations += n
     stat = ctx.stats.setdefault(st.name, {"cases": 0, "impl_panics": 0, "disagree": 0, "pred_fail": 0, "out_of_scope": 0, "note": st.note})
@@ -342,7 +390,7 @@ def evaluate_stream(ctx, st):
     # property predicate fails on the implementation's own output -> violation (or a listed finding)
     seen_keys = set()
     for c, i, m in fails[:40]:
-        key = ctx.known_key_of(st.suite, c)
+        key = ctx.known_key_of(st.suite, c, i)
         kf = next((k for k in ctx.known if k.get("class_id") == key and k["status"] == "known"), None) if key else None
         if kf:
             ctx.known_hits[kf["key"]] = kf["what"]
@@ -355,11 +403,11 @@ def evaluate_stream(ctx, st):
             o = run_impl(["%s %s" % (suite, cand)])[0]
             if o == BAD:
                 return False
-            v = run_model(["%s (%s %s)" % (chk, cand, o if not o.startswith("(9") else "(1)")])[0]
-            return v == "0" and not ctx.known_key_of(suite, cand)
+            v = run_checker(chk, [cand], [o])[0]
+            return v == "0" and not ctx.known_key_of(suite, cand, o)
         small = shrink(c, still)
         o = run_impl(["%s %s" % (st.suite, small)])[0]
-        mo = run_model(["%s %s" % (st.suite, small)])[0]
+        mo = resolve_needs(["%s %s" % (st.suite, small)])[0][0]
         ctx.violation("property predicate fails on the implementation's output", {
             "property": ctx.prop, "kind": "predicate-fails", "stream": st.name, "suite": st.suite, "checker": st.checker,
             "case": small, "original_case": c, "impl_output": o, "model_output": mo,
@@ -370,14 +418,14 @@ def evaluate_stream(ctx, st):
 
         def still2(cand, suite=st.suite):
             o = run_impl(["%s %s" % (suite, cand)])[0]
-            mo = run_model(["%s %s" % (suite, cand)])[0]
+            mo = resolve_needs(["%s %s" % (suite, cand)])[0][0]
             return o != BAD and o != mo
         small = shrink(c, still2)
         ctx.pending_nofail = getattr(ctx, "pending_nofail", [])
         ctx.pending_nofail.append({
             "property": ctx.prop, "kind": "correspondence-broken", "stream": st.name, "suite": st.suite,
             "case": small, "original_case": c, "impl_output": run_impl(["%s %s" % (st.suite, small)])[0],
-            "model_output": run_model(["%s %s" % (st.suite, small)])[0], "predicate_on_impl_output": v,
+            "model_output": resolve_needs(["%s %s" % (st.suite, small)])[0][0], "predicate_on_impl_output": v,
             "disagreements_in_stream": len(disag),
             "no_longer_checks": "correspondence suite '%s' (model %s vs implementation) behind theorems of %s" % (st.suite, st.suite, ctx.mod.PROPS_VO)})
 
@@ -389,7 +437,7 @@ def replay_known(ctx):
             continue
         w = k["witness"]
         o = run_impl(["%s %s" % (w["suite"], w["case"])])[0]
-        v = run_model(["%s (%s %s)" % (w["checker"], w["case"], o if not o.startswith("(9") else "(1)")])[0]
+        v = run_checker(w["checker"], [w["case"]], [o])[0]
         if v == "0":
             ctx.known_hits[k["key"]] = k["what"]
 
@@ -401,7 +449,7 @@ def replay_fixed(ctx):
             continue
         w = k["witness"]
         o = run_impl(["%s %s" % (w["suite"], w["case"])])[0]
-        v = run_model(["%s (%s %s)" % (w["checker"], w["case"], o if not o.startswith("(9") else "(1)")])[0]
+        v = run_checker(w["checker"], [w["case"]], [o])[0]
         ctx.evaluations += 1
         if v == "0":
             ctx.violation("a repaired defect has returned: " + k["what"], {
@@ -489,12 +537,12 @@ def do_replay(mod, path):
     build_model(); build_harness()
     line = "%s %s" % (obj["suite"], obj["case"])
     o = run_impl([line])[0]
-    m = run_model([line])[0]
+    m = resolve_needs([line])[0][0]
     print("case  : " + line)
     print("impl  : " + o)
     print("model : " + m)
     if obj.get("checker"):
-        v = run_model(["%s (%s %s)" % (obj["checker"], obj["case"], o if not o.startswith("(9") else "(1)")])[0]
+        v = run_checker(obj["checker"], [obj["case"]], [o])[0]
         print("property predicate on the implementation's output: " + {"1": "holds", "0": "FAILS", "2": "outside quantifier"}.get(v, v))
         sys.exit(1 if v == "0" else 0)
     sys.exit(0 if o == m else 1)
